@@ -72,11 +72,11 @@ type c13Case struct {
 	Segs  []c13Seg `json:"segs,omitempty"`
 
 	// layout: the loader model
-	Page hx   `json:"page,omitempty"`
-	Bias hx   `json:"bias,omitempty"`
-	Seg  int  `json:"seg,omitempty"` // owning segment
-	V0   hx   `json:"v0,omitempty"`
-	V1   hx   `json:"v1,omitempty"`
+	Page hx     `json:"page,omitempty"`
+	Bias hx     `json:"bias,omitempty"`
+	Seg  int    `json:"seg,omitempty"` // owning segment
+	V0   hx     `json:"v0,omitempty"`
+	V1   hx     `json:"v1,omitempty"`
 	Why  string `json:"why,omitempty"`
 
 	// the runtime mapping and the sample addresses
